@@ -156,6 +156,17 @@ pub fn directed() -> Vec<Program> {
     //     (an object payload must still be accepted there, and come back as an object)
     out.push(prog(vec![op("OnlyTypename", vec![t()])], |_| {}));
     out.push(prog(vec![op("NestedOnlyTypename", vec![Sel::obj("me", vec![t()]), Sel::obj("dog", vec![t(), Sel::obj("owner", vec![t()])])])], |_| {}));
+    // 18. fragments whose names are keywords once snake-cased (Type, Match, Loop), spread as a member of a struct
+    //     and as a member of an interface variant next to another selection of that variant (fix 7db317c)
+    out.push(prog(vec![
+        frag("Type", "Dog", vec![fld("barks")]),
+        frag("Match", "Cat", vec![fld("lives")]),
+        frag("Loop", "Person", vec![fld("name")]),
+        op("KeywordFragments", vec![
+            Sel::obj("animals", vec![t(), fld("id"), on("Dog", vec![fld("name")]), sp("Type"), on("Cat", vec![fld("name")]), sp("Match")]),
+            Sel::obj("me", vec![fld("tags"), sp("Loop")]),
+        ]),
+    ], |_| {}));
     // 11. the same schema, the extension's implementor only as a runtime type
     out.push(prog_on(zoo_extended(), vec![
         op("ExtendedPlain", vec![Sel::obj("named", vec![t(), fld("name")]), Sel::obj("me", vec![fld("age"), fld("name")])]),
